@@ -13,7 +13,7 @@ CHECKS = {
  'C06': dict(engine='E2-evloop', category='model_checking', design='DESIGN.md 4, 9/C06',
    technique='explicit exhaustive enumeration of event-loop histories executed on the real tpt_loop (wrapped epoll_wait plays the environment), checked step by step against a model of the registration promise; plus exhaustive timer-unit and validation grids',
    text='All histories up to depth 4 (quick) / 5 (thorough) of add / enable (both forms) / disable / delete / make-ready / drain / peer-close / timer-expiry / callback-side actions over a pipe, a socket and a timer are run on the real loop with the real epoll and timerfd; after every loop iteration the callback that ran must be registered, enabled and have its condition (one-shot gone, dispatch silent until re-enabled, EOF flag iff peer closed, no lost event). The itimerspec/clock/flags reaching timerfd_settime are compared with integer arithmetic for every unit x boundary value; malformed registrations must be refused before reaching the kernel.',
-   note='Single loop thread, registrations issued on the owning thread or before the loop runs; TP_EV_PROC only in the validation grid; epoll round-robin fairness assumed for the no-lost-event clause; time is owned (timers expire only when the history says so).'),
+   note='Single loop thread, registrations issued on the owning thread or before the loop runs; process events (TP_EV_PROC on a real forked child) are driven by their own history enumeration (add / delete / disable / child exits, interleaved with a read event, two steps deeper than the main alphabet); epoll round-robin fairness assumed for the no-lost-event clause; time is owned (timers expire only when the history says so).'),
  'C10': dict(engine='E1-sched', category='model_checking', design='DESIGN.md 3, 9/C10',
    technique='stateless model checking of the real pthread code: deviation-bounded exhaustive DFS over schedules and write() faults under a cooperative scheduler (link-time --wrap), ASan stack-use-after-return as memory oracle',
    text='Every schedule (<=2 preemptions/faults quick, <=3 thorough on small pools) of every broadcast API x flag x caller x not-running-subset scenario is executed on the real threadpool sources and checked for exactly-once delivery on the right OS thread, true counts, SYNC return-after-last-callback, no access to the dead caller frame, done callback once/on originator/after all, one-by-one order and non-overlap.',
